@@ -152,7 +152,8 @@ def plan_C07(run):
 
 
 def plan_C08(run):
-    n = q(run, 2500, 60000)
+    campaign(run, "extremes", {"C08"}, lambda s, r: drivers.extremes_campaign(s, r, q(run, 1200, 30000)))
+    n = q(run, 1500, 60000)
     campaign(run, "rate-campaign", {"C08"}, lambda s, r: drivers.rate_campaign(s, r, n, max_players=16))
     campaign(run, "predict-campaign", {"C08"}, lambda s, r: drivers.predict_campaign(s, r, n // 3, max_players=16))
     return {"rule": "random valid games over the numeric domain incl. boundaries; all four operations must return finite values"}
